@@ -192,8 +192,26 @@ def _local_const_inits(f):
     return {k: v for k, v in init.items() if k not in bad and v is not None}
 
 
-def value_sites(F):
+def _named_constants(F):
+    """static constexpr members / variables initialised with an integer literal: name -> '#<value>'"""
+    out = {}
+    for r in F.recs:
+        for fl in r['fields']:
+            if fl.get('static') and fl.get('init_text'):
+                m = re.fullmatch(r'\s*(?:std::)?(?:\w+\s*[({]\s*)?(-?\d+)[uUlL]*\s*[)}]?\s*', fl['init_text'])
+                if m: out.setdefault(fl['name'], set()).add('#' + m.group(1))
+    return {k: next(iter(v)) for k, v in out.items() if len(v) == 1}
+
+
+def value_sites(F, with_unknown=False):
     out = []
+    named = _named_constants(F)
+    def cst(a):
+        c = _const(a)
+        if c is None and isinstance(a, dict) and a.get('op') == 'path':
+            nm = (a.get('p') or '').split('.')[-1].split('::')[-1]
+            return named.get(nm)
+        return c
     for f in F.funcs:
         loc = None
         for b, i, e in events(f):
@@ -205,12 +223,12 @@ def value_sites(F):
             args = e.get('args', [])
             idx = WRITE_OPS[nm]
             if idx >= len(args): continue
-            c = _const(args[idx])
+            c = cst(args[idx])
             frm = None
             if nm.startswith('compare_exchange') and isinstance(args[0], dict) and args[0].get('op') == 'path':
                 if loc is None: loc = _local_const_inits(f)
                 frm = loc.get(args[0].get('p'))
-            if c is None and frm is None: continue
+            if c is None and frm is None and not with_unknown: continue
             member = (last_field(ce.get('base', '')) or '?').replace('#next_op_base::', '')
             out.append(dict(file=f['file'], fn=norm_fn(f['qname']), member=member, op=nm, value=c, expected=frm, line=e['line'], f=f))
     return out
@@ -222,11 +240,17 @@ def _check_values(run, F, prop):
     with open(VTABLE) as fh: tab = [r for r in json.load(fh)['sites'] if r['prop'] == prop]
     if not tab: raise Broken('no value rows for ' + prop)
     cur = collections.defaultdict(list)
-    for s in value_sites(F): cur[(s['file'], _fam(s['fn']), s['member'], s['op'])].append(s)
+    anysite = set()
+    for s in value_sites(F, with_unknown=True):
+        k = (s['file'], _fam(s['fn']), s['member'], s['op'])
+        anysite.add(k)
+        if s.get('value') is not None or s.get('expected') is not None: cur[k].append(s)
     need = collections.defaultdict(list)
     for r in tab: need[(r['file'], _fam(r['fn']), r['member'], r['op'])].append(r)
     for key, rows in sorted(need.items()):
         have = cur.get(key, [])
+        if not have and key in anysite:
+            run.inst('%s %s' % (rows[0]['file'], key[1]), '%s.%s: the operand is no longer a literal or a named integral constant: not decided' % (key[2], key[3]), nontrivial=False, key=key + ('n/d',)); continue
         if not have:
             if all(r.get('cxx20') for r in rows) and '17' in F.config:
                 run.inst('%s %s' % (rows[0]['file'], key[1]), 'C++20-only code: absent from this configuration', nontrivial=False, key=key + ('n/a',)); continue
